@@ -136,6 +136,11 @@ class JsonParse(LibFn):
         return obs
 
 
+import os as _os
+with open(_os.path.join(_os.path.dirname(_os.path.dirname(_os.path.abspath(__file__))), 'native', 'witness', 'json_parse_witness.py'),
+          encoding='utf-8') as _fh:
+    JsonParse.native_witness = {'C14.decoded-containers-are-new': _fh.read()}
+
 LIB = [
     JsonParse(),
     LibFn('jsonStringify', 'library._json_stringify', '_JSON_STRINGIFY_ARGS', None, json_stringify),
